@@ -93,18 +93,23 @@ func subPackets(thorough bool) [][]subEntry {
 
 // C07: SUBSCRIBE/UNSUBSCRIBE always acknowledged and effective at the ack.
 func C07(c *core.Ctx) {
-	c.Rep.Bound = "ENUM x HIST (third round: with 24 KiB of the subscriber's own traffic between SUBSCRIBE, probes and UNSUBSCRIBE, so that its 16 KiB ring is overwritten): every SUBSCRIBE with 1 entry over 8 filters (3 invalid) x QoS 0-3, pairs/triples over a reduced set (all pairs in thorough), lists of 4/5/8/16 entries (all valid, one invalid at each position, out-of-range QoS, repeated, overlapping), under server QoS cap 2 and 1; each followed by probe publishes, the matching UNSUBSCRIBE and probes again; plus all orders of sub/unsub/pub on one connection to depth 4/5; SCHED: a client thread publishes a probe the moment the SUBACK / UNSUBACK has arrived (1 and 2 filters), every schedule of the broker goroutines up to 2 (quick) / 3 (thorough) deviations"
+	c.Rep.Bound = "ENUM x HIST (fourth round: in-process subscribers whose callbacks fail precede the client in every subscriber list; third round: with 24 KiB of the subscriber's own traffic between SUBSCRIBE, probes and UNSUBSCRIBE, so that its 16 KiB ring is overwritten): every SUBSCRIBE with 1 entry over 8 filters (3 invalid) x QoS 0-3, pairs/triples over a reduced set (all pairs in thorough), lists of 4/5/8/16 entries (all valid, one invalid at each position, out-of-range QoS, repeated, overlapping), under server QoS cap 2 and 1; each followed by probe publishes, the matching UNSUBSCRIBE and probes again; plus all orders of sub/unsub/pub on one connection to depth 4/5; SCHED: a client thread publishes a probe the moment the SUBACK / UNSUBACK has arrived (1 and 2 filters), every schedule of the broker goroutines up to 2 (quick) / 3 (thorough) deviations"
 	c.Rep.Rule = "per packet: exactly one SUBACK with the same id and one code per entry in order (min(requested, cap) or 0x80) or the connection is closed; probes on a, a/b, b, t/0.. must be delivered according to exactly the granted entries, and not at all after the UNSUBACK; non-trivial = packets with at least one granted entry"
 	comps := map[string]bool{"acks": true, "route": true, "closed": true, "stream": true}
 	pkts := subPackets(c.Thorough())
 	n := 0
-	for _, cfg := range []Config{{}, {MaxQos: 1, MaxQosSet: true}, {BufferSize: -1}} {
+	for _, cfg := range []Config{{}, {MaxQos: 1, MaxQosSet: true}, {BufferSize: -1}, {BufferSize: -2}} {
 		// third round: the subscriber's own traffic overwrites its incoming ring between the
 		// SUBSCRIBE and the probes, and again after the UNSUBSCRIBE (every fifth packet; thorough: all)
 		flooded := cfg.BufferSize == -1
+		// fourth round: in-process subscribers whose callbacks return an error hold `#` and
+		// `a/#` before the SUBSCRIBE arrives, so they precede the client in every subscriber
+		// list: a delivery that fails for somebody else is no reason to skip this client
+		// (every fifth packet; thorough: all)
+		failing := cfg.BufferSize == -2
 		cfg.BufferSize = 0
 		for pi, pk := range pkts {
-			if flooded && !c.Thorough() && pi%5 != 0 {
+			if (flooded || failing) && !c.Thorough() && pi%5 != 0 {
 				continue
 			}
 			n++
@@ -139,6 +144,10 @@ func C07(c *core.Ctx) {
 				probes = append(probes, pub("P", t, 1, id, "probe-"+t))
 			}
 			hist := []Action{conn("P", "p", true), conn("S", "s", true), sa}
+			if failing {
+				hist = []Action{{Kind: "lsub", Client: "E1", Filters: []string{"#"}, QoSs: []byte{1}}, {Kind: "lsub", Client: "E2", Filters: []string{"a/#"}, QoSs: []byte{0}},
+					{Kind: "lsub", Client: "E3", Filters: []string{"t/+"}, QoSs: []byte{2}}, conn("P", "p", true), conn("S", "s", true), sa}
+			}
 			if flooded {
 				hist = append(hist, flood("S")...)
 			}
@@ -160,6 +169,9 @@ func C07(c *core.Ctx) {
 			}
 			if flooded {
 				name += "-flooded"
+			}
+			if failing {
+				name += "-failing-local-subscribers"
 			}
 			spec := &HistSpec{Name: name, Cfg: cfg, Comps: comps}
 			r := spec.RunHistory(hist, false)
